@@ -109,7 +109,7 @@ def permute_cases(draw):
     if mode == '2d':
         c = draw(gen.fit_case_2d(max_models=8, max_filters=6, max_sources=3))
     else:
-        c = draw(gen.fit_case_3d(max_models=6, max_filters=5, max_sources=3))
+        c = draw(gen.fit_case_3d(max_models=6, max_filters=5, max_sources=3, repeat_filter=True))
     c['memmap'] = False
     c['mode'] = mode
     nf, nm = len(c['filters']), len(c['grid']['names'])
@@ -217,7 +217,7 @@ def history_cases(draw):
     if mode == '2d':
         c = draw(gen.fit_case_2d(max_models=5, max_filters=5, max_sources=6, ignored='any'))
     else:
-        c = draw(gen.fit_case_3d(max_models=4, max_filters=4, max_sources=4, ignored='any'))
+        c = draw(gen.fit_case_3d(max_models=4, max_filters=4, max_sources=4, ignored='any', repeat_filter=True))
     while len(c['sources']) < 2:
         s = dict(c['sources'][0])
         s['flux'] = [v * 1.5 if isinstance(v, float) else v for v in s['flux']]
